@@ -53,3 +53,78 @@ ben("c01-benign-push-str", ["C01"], "src/prepare.rs",
         }""",
     """            self.string.push_str(&self.placeholder);
         }""")
+
+# ---- C02 -------------------------------------------------------------------------------------------------------
+brk("c02-string-push-common", ["C02"], "src/prepare.rs", "self.push_str(&query_builder.value_to_string(&value))",
+    "self.push_str(&query_builder.value_to_string_common(&value))", "C02.R1:String::push_param")
+brk("c02-peek-writer", ["C02"], "src/backend/query_builder.rs",
+    """        if let Some(limit) = &select.limit {
+            write!(sql, " LIMIT ").unwrap();""",
+    """        if let Some(limit) = &select.limit {
+            if sql.to_string().ends_with(' ') { write!(sql, "LIMIT ").unwrap(); } else {
+            write!(sql, " LIMIT ").unwrap(); }""", "C02.R2:writer-call")
+brk("c02-delete-wrong-renderer", ["C02"], "src/query/delete.rs",
+    """    pub fn build_collect_into<T: QueryBuilder>(&self, query_builder: T, sql: &mut dyn SqlWriter) {
+        query_builder.prepare_delete_statement(self, sql);""",
+    """    pub fn build_collect_into<T: QueryBuilder>(&self, query_builder: T, sql: &mut dyn SqlWriter) {
+        crate::backend::query_builder::CommonSqlQueryBuilder.prepare_delete_statement(self, sql); let _ = query_builder;""", "C02.R3:DeleteStatement:build_collect_into")
+
+# ---- C10 -------------------------------------------------------------------------------------------------------
+brk("c10-lt-instead-of-ne", ["C10"], "src/query/insert.rs",
+    """        let values = values.into_iter().collect::<Vec<SimpleExpr>>();
+        if self.columns.len() != values.len() {""",
+    """        let values = values.into_iter().collect::<Vec<SimpleExpr>>();
+        if self.columns.len() < values.len() {""", "C10.R1")
+brk("c10-select-from-no-check", ["C10"], "src/query/insert.rs",
+    """        if self.columns.len() != statement.selects.len() {
+            return Err(Error::ColValNumMismatch {
+                col_len: self.columns.len(),
+                val_len: statement.selects.len(),
+            });
+        }
+""", """        if !self.columns.is_empty() && statement.selects.is_empty() {
+            return Err(Error::ColValNumMismatch {
+                col_len: self.columns.len(),
+                val_len: statement.selects.len(),
+            });
+        }
+""", "C10.R1")
+brk("c10-swapped-payload", ["C10"], "src/query/insert.rs",
+    """            return Err(Error::ColValNumMismatch {
+                col_len: self.columns.len(),
+                val_len: values.len(),
+            });""",
+    """            return Err(Error::ColValNumMismatch {
+                col_len: values.len(),
+                val_len: self.columns.len(),
+            });""", "C10.R2:values:err-payload")
+brk("c10-write-before-check", ["C10"], "src/query/insert.rs",
+    """        let values = values.into_iter().collect::<Vec<SimpleExpr>>();
+        if self.columns.len() != values.len() {""",
+    """        let values = values.into_iter().collect::<Vec<SimpleExpr>>();
+        self.default_values = None;
+        if self.columns.len() != values.len() {""", "C10.R1:values:write:default_values")
+brk("c10-new-source-writer", ["C10"], "src/query/insert.rs",
+    """    pub fn or_default_values(&mut self) -> &mut Self {
+        self.default_values = Some(1);""",
+    """    pub fn or_default_values(&mut self) -> &mut Self {
+        self.source = None;
+        self.default_values = Some(1);""", "C10.R3:source")
+ben("c10-benign-eq-form", ["C10"], "src/query/insert.rs",
+    """        let values = values.into_iter().collect::<Vec<SimpleExpr>>();
+        if self.columns.len() != values.len() {
+            return Err(Error::ColValNumMismatch {
+                col_len: self.columns.len(),
+                val_len: values.len(),
+            });
+        }
+        if !values.is_empty() {""",
+    """        let values = values.into_iter().collect::<Vec<SimpleExpr>>();
+        if values.len() == self.columns.len() {
+        } else {
+            return Err(Error::ColValNumMismatch {
+                col_len: self.columns.len(),
+                val_len: values.len(),
+            });
+        }
+        if !values.is_empty() {""")
